@@ -442,7 +442,7 @@ func checkC06(c *Ctx) {
 		}
 		c.R.Check(ok, "I7.layout", name(w), "descriptor-writer", c.Pos(w.Pos()), "the descriptor is written as EFI_TIME, dwLength, wRevision, wCertificateType, type GUID, CertData (little endian)", det)
 	}
-	c.R.Floor("I1.utc", 6)
+	c.R.Floor("I1.utc", 1)
 	c.R.Floor("I4.const", 4)
 }
 
